@@ -346,13 +346,29 @@ func (e *Explorer) ForkValue(t *smt.Term, signed bool, site string) int64 {
 	if e.pos < len(e.prefix) {
 		choice = int64(e.prefix[e.pos])
 	} else {
-		// enumerate feasible values with the solver
+		// enumerate feasible values: cached models first, then the solver
 		var vals []uint64
+		seen := map[uint64]bool{}
 		var excl []*smt.Term
 		limit := e.ForkLimit
-		for {
+		add := func(v uint64) {
+			seen[v] = true
+			vals = append(vals, v)
+			excl = append(excl, e.Ctx.BNot(e.Ctx.Eq(t, e.Ctx.Const(v, t.W))))
+		}
+		for _, m := range e.models {
+			if m.alive {
+				if v := smt.Eval(t, m.env, m.memo); !seen[v] {
+					add(v)
+					e.CacheHits++
+				}
+			}
+		}
+		for len(vals) < limit+1 {
 			as := append(append([]*smt.Term{}, e.pc...), excl...)
-			r, m := e.Solver.Check(as, []*smt.Term{t})
+			e.collectVars(t)
+			vars := e.pcVars
+			r, m := e.Solver.Check(as, vars)
 			if r == smt.Unknown {
 				e.noteAbort("solver unknown in value fork at " + site)
 				break
@@ -360,17 +376,17 @@ func (e *Explorer) ForkValue(t *smt.Term, signed bool, site string) int64 {
 			if r == smt.Unsat {
 				break
 			}
-			v := m[t.Ref()]
-			vals = append(vals, v)
-			excl = append(excl, e.Ctx.BNot(e.Ctx.Eq(t, e.Ctx.Const(v, t.W))))
-			if len(vals) >= limit {
-				// is there more?
-				as := append(append([]*smt.Term{}, e.pc...), excl...)
-				if r, _ := e.Solver.Check(as, nil); r != smt.Unsat {
-					e.noteAbort("value fork limit at " + site)
-				}
-				break
+			env := map[string]uint64{}
+			for _, v := range vars {
+				env[v.Name] = m[v.Ref()]
 			}
+			e.addModel(env)
+			cm := e.models[len(e.models)-1]
+			add(smt.Eval(t, cm.env, cm.memo))
+		}
+		if len(vals) > limit {
+			vals = vals[:limit]
+			e.noteAbort("value fork limit at " + site)
 		}
 		if len(vals) == 0 {
 			panic(pathInfeasible{})
@@ -395,7 +411,7 @@ func (e *Explorer) ForkValue(t *smt.Term, signed bool, site string) int64 {
 	}
 	e.pos++
 	e.taken = append(e.taken, int(choice))
-	e.pc = append(e.pc, e.Ctx.Eq(t, e.Ctx.Const(uint64(choice), t.W)))
+	e.addPC(e.Ctx.Eq(t, e.Ctx.Const(uint64(choice), t.W)))
 	return choice
 }
 
